@@ -686,12 +686,18 @@ func init() {
 					}
 					stack = append(stack, nd)
 					rs, ok := nd.(*ast.ReturnStmt)
-					if !ok || len(rs.Results) != 2 || isBoolConst(info, rs.Results[1], false) {
+					if !ok || len(rs.Results) != 2 {
 						return true
 					}
-					construct := ord.next("return found")
+					// `return x, false` is judged like `return x, true`: absence, too, is decided by
+					// the backing storage only (a `found` withdrawn because the value is () is the same defect)
+					cname := "return found"
+					if isBoolConst(info, rs.Results[1], false) {
+						cname = "return not found"
+					}
+					construct := ord.next(cname)
 					bad := ""
-					if !isBoolConst(info, rs.Results[1], true) {
+					if !isBoolConst(info, rs.Results[1], true) && !isBoolConst(info, rs.Results[1], false) {
 						bad = badAtom(rs.Results[1])
 					}
 					for _, anc := range stack {
